@@ -9,23 +9,24 @@ UNIT = {
                   {'file': 'riscv_analysis/src/analysis/available.rs', 'item': 'fn rule_expand_address_for_load'}],
     'obligations': [
         {'id': 'values_n.claims', 'recipe': ['values-search'], 'props': ['C01', 'C06'], 'kind': 'bounded',
-         'bound': '4438 programs x 6 initial register files: every R-type operator on a 14x14 operand grid in five operand shapes incl. x0; every I-type '
-                  'operator; 29 hand-written programs with sp arithmetic, save/restore, sub-word and overlapping stores, extreme offsets, forward branches '
-                  'and joins, loops, calls to convention-respecting functions (executed for real, one entry snapshot per activation; execution stops at a return that leaves sp or a saved register changed), a function entered at two labels',
+         'bound': '4440 programs x 6 initial register files: every R-type operator on a 14x14 operand grid in five operand shapes incl. x0; every I-type '
+                  'operator; 31 hand-written programs with sp arithmetic, save/restore, sub-word and overlapping stores, extreme offsets, forward branches '
+                  'and joins, loops, calls to convention-respecting functions (executed for real, one entry snapshot per activation; execution stops at a return that leaves sp or a saved register changed), a function entered at two labels, a slot below sp across a call, a fact about gp on a path falling into a function entry',
          'clause': 'every Constant / entry-value-plus-constant claim attached before or after an executed instruction, and every stack-slot claim of such a '
                    'value, equals what an RV32IM interpreter computes; the analysis never panics',
          'tier': 'quick'},
     ] + [
         {'id': 'values_n.enum%d_%s' % (n, shape), 'recipe': ['values-enum', str(n), shape], 'props': ['C01'], 'kind': 'bounded', 'timeout': 1500,
-         'bound': 'all %d sequences of %d statements from a pool of 19 (word / half / byte stores of zero, argument, temporary and saved registers into two '
-                  'slots, loads of each width, li / mv / addi, mv from zero and from sp, sp adjustments, sub from sp) inside a called function with a fixed 8-byte frame holding s0 and s1%s; '
-                  'x 6 initial register files' % (19 ** n, n, {'straight': '', 'branch': ', with a forward branch over the middle statements',
+         'bound': 'all %d sequences of %d statements from a pool of 21 (word / half / byte stores of zero, argument, temporary and saved registers into two '
+                  'slots and one word below sp, loads of each width, li / mv / addi, mv from zero and from sp, sp adjustments, sub from sp) inside a called function with a fixed 8-byte frame holding s0 and s1%s; '
+                  'x 6 initial register files' % (21 ** n, n, {'straight': '', 'branch': ', with a forward branch over the middle statements',
                                                               'loop': ', all but the last in a do-while loop counted by a0 (1, 3 and many iterations, 400-step fuel)',
                                                               'while': ', all but the last in a while loop counted by a0 (0, 1, 3 and many iterations)',
-                                                              'fall': ', in a function entered at two labels (called as f, which falls through into g, or as g directly, depending on a0)'}[shape]),
+                                                              'fall': ', in a function entered at two labels (called as f, which falls through into g, or as g directly, depending on a0)',
+                                                              'call': ', around a call of a function that uses a frame of its own below the caller\'s sp and clobbers temporaries'}[shape]),
          'clause': 'every Constant / entry-value-plus-constant claim attached before or after an executed instruction, and every stack-slot claim of such a '
                    'value, equals what an RV32IM interpreter computes; the analysis never panics',
          'tier': tier}
-        for (n, tier) in ((3, 'quick'), (4, 'thorough')) for shape in ('straight', 'branch', 'loop', 'while', 'fall')
+        for (n, tier) in ((3, 'quick'), (4, 'thorough')) for shape in ('straight', 'branch', 'loop', 'while', 'fall', 'call')
     ],
 }
